@@ -40,7 +40,13 @@ var fuzzGenTests = map[string]func(*testing.T){
 // the same structured generators towards library code their random walk reaches rarely.
 // The oracle is the property's own. A failing input is an ordinary corpus file; it
 // replays with the same VERIF_FUZZ_TEST (./check <ID> replay <file>).
+// underFuzzEngine: the property runs as a native fuzz target. The engine allows an input 10 s of wall
+// time and kills the worker of one that takes longer, so generators keep their most expensive
+// combinations (millions of one-byte reads) for the rapid stages.
+var underFuzzEngine bool
+
 func FuzzGen(f *testing.F) {
+	underFuzzEngine = true
 	name := os.Getenv("VERIF_FUZZ_TEST")
 	test := fuzzGenTests[name]
 	if test == nil {
